@@ -1,7 +1,6 @@
 // C15 corpus: a program built to be well-typed that uses every term form, polymorphic declarations
 // instantiated at several (nested) types, shadowing across name spaces and chiralities, and
-// covariable parameters / fields.  Written so that every instance is mentioned in a checked
-// position before it is needed (see c15-wt-rejected-instance-order.sc for what happens otherwise).
+// covariable parameters / fields.  (`lz` wraps `Tup(a, b)` in a let: a leftover of the instance-order defect, see c15-wt-instance-order.sc.)
 data List[A] { Nil, Cons(x: A, xs: List[A]) }
 data Pair[A, B] { Tup(fst: A, snd: B) }
 data Option[A] { None, Some(x: A) }
